@@ -310,6 +310,13 @@ func cloneExpr(expr Expression) Expression {
 			Label: expr.Label,
 			p:     expr.p,
 		}
+	case *LitMatcher:
+		// literals are concatenated in place by the sequence optimization,
+		// so every copy of a rule needs its own node
+		return &LitMatcher{
+			posValue:   expr.posValue,
+			IgnoreCase: expr.IgnoreCase,
+		}
 	case *NotExpr:
 		return &NotExpr{
 			Expr: cloneExpr(expr.Expr),
